@@ -22,6 +22,17 @@ type Env struct {
 	pkg         *types.Package
 	nq          *int
 	con         *Contract
+	facts       *[]Term // valid arithmetic facts (mod range lemmas) for terms built so far
+}
+
+// modFacts returns the two range lemmas of integer remainder for a symbolic divisor; they are
+// theorems of integer arithmetic that the solvers' nonlinear cores do not find by themselves.
+func modFacts(a, b Term) Term {
+	m := App(SInt, "mod", a, b)
+	return And(
+		Implies(And(Le(IntLit(0), a), Lt(a, b)), Eq(m, a)),
+		Implies(And(Le(b, a), Lt(a, App(SInt, "*", IntLit(2), b))), Eq(m, Sub(a, b))),
+		Implies(Lt(IntLit(0), b), And(Le(IntLit(0), m), Lt(m, b))))
 }
 
 type specErr string
@@ -77,10 +88,18 @@ func (vc *VC) specBool(env *Env, cl *Clause) (res Term) {
 			panic(r)
 		}
 	}()
+	var facts []Term
+	if env.facts == nil {
+		env.facts = &facts
+	}
 	t, _ := vc.specExpr(env, cl.Expr)
 	if t.Sort != SBool {
 		env.fail("clause is not boolean: %s", cl.Text)
 	}
+	for _, f := range *env.facts {
+		vc.q.Assert(f)
+	}
+	*env.facts = nil
 	return t
 }
 
@@ -125,7 +144,12 @@ func (vc *VC) specExpr(env *Env, e SExpr) (Term, types.Type) {
 			binders = append(binders, fmt.Sprintf("(%s %s)", nm, s))
 			ne.names[v.Name] = Bound{Term{nm, s}, ty}
 		}
+		var qfacts []Term
+		ne.facts = &qfacts
 		body, _ := vc.specExpr(ne, x.Body)
+		if len(qfacts) > 0 {
+			body = And(append(qfacts, body)...)
+		}
 		_ = guards
 		q := "exists"
 		if x.Forall {
@@ -539,6 +563,9 @@ func (vc *VC) specBinary(env *Env, x *SBinary) (Term, types.Type) {
 		}
 		return App(SInt, "div", a, b), rt
 	case "%":
+		if _, lit := parseSMTInt(b.S); !lit && env.facts != nil {
+			*env.facts = append(*env.facts, modFacts(a, b))
+		}
 		return App(SInt, "mod", a, b), rt
 	case "<<":
 		if bi, ok := parseSMTInt(b.S); ok && bi.IsInt64() {
@@ -911,7 +938,18 @@ func (vc *VC) bindCallee(con *Contract, fn *ssa.Function, method *types.Func, ar
 	names := map[string]Bound{}
 	var sig *types.Signature
 	var pkg *types.Package
-	if fn != nil {
+	if fn == nil && method == nil {
+		// call through a function-typed field: args[0] is the struct holding the field
+		sig = vc.dynSig
+		names["recv"] = Bound{args[0], recvType}
+		for i := 0; i < sig.Params().Len(); i++ {
+			p := sig.Params().At(i)
+			if p.Name() != "" && p.Name() != "_" {
+				names[p.Name()] = Bound{args[i+1], p.Type()}
+			}
+			names[fmt.Sprintf("arg%d", i)] = Bound{args[i+1], p.Type()}
+		}
+	} else if fn != nil {
 		sig = fn.Signature
 		for i, p := range fn.Params {
 			names[p.Name()] = Bound{args[i], p.Type()}
